@@ -600,7 +600,14 @@ func (c *Cnr) store(o Obj) {
 
 // Put applies the admission rules documented for DB.Put and, if admitted,
 // stores the object (and its parent header as a non-physical ROOT object).
-func (m *Model) Put(s uni.Spec, epoch int) Class {
+func (m *Model) Put(s uni.Spec, epoch int) Class { return m.PutWith(s, epoch, "") }
+
+// PutWith is Put with a hint for the one admission case the documentation
+// leaves open: a LOCK whose target has no tombstone of its own but INHERITS
+// one from its parent. Without a hint the lock is rejected iff the tombstone is
+// the target's primary status (see Primary); with hint OK / AlreadyRemoved the
+// hint decides. Everywhere else the hint is ignored.
+func (m *Model) PutWith(s uni.Spec, epoch int, hint Class) Class {
 	c := m.C[s.Cnr%uni.NContainers]
 	if c.Exists && c.Removed {
 		return AlreadyRemoved
@@ -638,12 +645,17 @@ func (m *Model) Put(s uni.Spec, epoch int) Class {
 			return LockNonRegular
 		}
 		if c.Exists {
-			if m.Quirks.LockOverridesTombstone {
-				if c.primary(o.Target, epoch, m.Quirks, 0) == Tombstoned {
+			switch {
+			case len(c.tombstones(o.Target)) > 0 && !m.Quirks.LockOverridesTombstone:
+				return AlreadyRemoved // documented: a tombstone is associated with the target
+			case c.reasons(o.Target, epoch, false, m.Quirks, 0).Has(Tombstoned):
+				rej := c.primary(o.Target, epoch, m.Quirks, 0) == Tombstoned
+				if hint == OK || hint == AlreadyRemoved {
+					rej = hint == AlreadyRemoved
+				}
+				if rej {
 					return AlreadyRemoved
 				}
-			} else if c.reasons(o.Target, epoch, false, m.Quirks, 0).Has(Tombstoned) {
-				return AlreadyRemoved
 			}
 		}
 	case TTombstone:
